@@ -801,7 +801,7 @@ impl ContinuityStore {
         }
 
         let continuity_id = Uuid::new_v4().to_string();
-        self.create_continuity(workspace, Some(continuity_id), None, true)
+        self.create_continuity(workspace, Some(continuity_id), None, true, None)
     }
 
     pub fn branch(
@@ -880,31 +880,16 @@ impl ContinuityStore {
         };
 
         let workspace = workspace_key(&self.workspace_root);
-        let thread_id = self.create_continuity(workspace, None, title, false)?;
-
-        let event = Event {
-            id: Uuid::new_v4().to_string(),
-            session_id: thread_id.clone(),
-            timestamp_ms: now_ms(),
-            seq: 1,
-            kind: EventKind::ContinuityBranched {
-                parent_thread_id: parent_thread_id.to_string(),
-                parent_seq,
-                parent_message_id: parent_message_id.clone(),
-                actor_id,
-                origin,
-            },
+        // The lineage frame is appended together with the creation frame, before the child
+        // becomes visible: nothing can be posted to the child in between.
+        let lineage = EventKind::ContinuityBranched {
+            parent_thread_id: parent_thread_id.to_string(),
+            parent_seq,
+            parent_message_id: parent_message_id.clone(),
+            actor_id,
+            origin,
         };
-        self.event_log
-            .append(&event)
-            .map_err(|err| format!("append continuity_branched: {err}"))?;
-        self.stream_cache.append_best_effort(&event);
-        let _ = self.sender.send(event.clone());
-
-        self.next_seq
-            .lock()
-            .expect("continuity seq mutex")
-            .insert(thread_id.clone(), 2);
+        let thread_id = self.create_continuity(workspace, None, title, false, Some(lineage))?;
 
         Ok((thread_id, parent_seq, parent_message_id))
     }
@@ -1000,9 +985,6 @@ impl ContinuityStore {
             (head_seq, last_message)
         };
 
-        let workspace = workspace_key(&self.workspace_root);
-        let thread_id = self.create_continuity(workspace, None, title, false)?;
-
         if summary_artifact_id.is_none() {
             if let Some(markdown) = summary_markdown.as_ref() {
                 let bundle = HandoffContextBundleV1::new_source_cut(
@@ -1018,31 +1000,18 @@ impl ContinuityStore {
             }
         }
 
-        let event = Event {
-            id: Uuid::new_v4().to_string(),
-            session_id: thread_id.clone(),
-            timestamp_ms: now_ms(),
-            seq: 1,
-            kind: EventKind::ContinuityHandoffCreated {
-                from_thread_id: from_thread_id.to_string(),
-                from_seq,
-                from_message_id: from_message_id.clone(),
-                summary_artifact_id,
-                summary_markdown,
-                actor_id,
-                origin,
-            },
+        let workspace = workspace_key(&self.workspace_root);
+        // As in `branch`: creation and lineage frames are appended before the child is visible.
+        let lineage = EventKind::ContinuityHandoffCreated {
+            from_thread_id: from_thread_id.to_string(),
+            from_seq,
+            from_message_id: from_message_id.clone(),
+            summary_artifact_id,
+            summary_markdown,
+            actor_id,
+            origin,
         };
-        self.event_log
-            .append(&event)
-            .map_err(|err| format!("append continuity_handoff_created: {err}"))?;
-        self.stream_cache.append_best_effort(&event);
-        let _ = self.sender.send(event.clone());
-
-        self.next_seq
-            .lock()
-            .expect("continuity seq mutex")
-            .insert(thread_id.clone(), 2);
+        let thread_id = self.create_continuity(workspace, None, title, false, Some(lineage))?;
 
         Ok((thread_id, from_seq, from_message_id))
     }
@@ -3596,6 +3565,7 @@ impl ContinuityStore {
         continuity_id: Option<String>,
         title: Option<String>,
         set_as_default: bool,
+        lineage: Option<EventKind>,
     ) -> Result<String, String> {
         let continuity_id = continuity_id.unwrap_or_else(|| Uuid::new_v4().to_string());
         let timestamp_ms = now_ms();
@@ -3615,6 +3585,31 @@ impl ContinuityStore {
         self.stream_cache.append_best_effort(&created);
         let _ = self.sender.send(created.clone());
 
+        let mut next = 1;
+        if let Some(kind) = lineage {
+            let event = Event {
+                id: Uuid::new_v4().to_string(),
+                session_id: continuity_id.clone(),
+                timestamp_ms: now_ms(),
+                seq: next,
+                kind,
+            };
+            self.event_log
+                .append(&event)
+                .map_err(|err| format!("append continuity lineage: {err}"))?;
+            self.stream_cache.append_best_effort(&event);
+            let _ = self.sender.send(event);
+            next += 1;
+        }
+
+        // Publish the next seq before the thread becomes visible through the index: a client that
+        // finds the new thread in the list and posts to it right away must not have its seq
+        // bookkeeping overwritten afterwards.
+        self.next_seq
+            .lock()
+            .expect("continuity seq mutex")
+            .insert(continuity_id.clone(), next);
+
         {
             let mut index = self.index.lock().expect("continuity index mutex");
             if set_as_default {
@@ -3631,11 +3626,6 @@ impl ContinuityStore {
             save_index(&index_path(&self.data_dir), &index)
                 .map_err(|err| format!("save continuity index: {err}"))?;
         }
-
-        self.next_seq
-            .lock()
-            .expect("continuity seq mutex")
-            .insert(continuity_id.clone(), 1);
 
         Ok(continuity_id)
     }
